@@ -82,9 +82,14 @@ A7 == CObj(7, RetP(IntV(2)), RetP(StrV(<<98>>)))                              \*
 A8o == CObj(8, [k |-> "throw"], [k |-> "throw"])
 A9 == CObj(9, RetP(NumV(NaN)), RetP(StrV(<<>>)))                              \* NaN / ""
 RStr == <<97, 55357, 56832, 233, 97, 98>>                                     \* "a<U+1F600><e-acute>ab"
-Recvs == {Undef, Null, BoolV(TRUE), BoolV(FALSE), IntV(5), IntV(-12), NumV(NZero), NumV(NaN), NumV(PInf), NumV(OneHalf),
+StrObjX(id, str, ts) == [t |-> "strobjx", s |-> str, id |-> id, ts |-> ts]
+SX1 == StrObjX(21, RStr, RetP(StrV(<<120, 121, 122>>)))          \* new String(RStr) with toString returning "xyz"
+SX2 == StrObjX(22, <<97, 98>>, [k |-> "retobj"])                \* toString returns an object: valueOf (the internal value)
+SX3 == StrObjX(23, <<97, 98>>, [k |-> "throw"])
+SX4 == StrObjX(24, <<97, 98>>, RetP(IntV(42)))
+Recvs == {SX1, SX2, SX3, SX4, Undef, Null, BoolV(TRUE), BoolV(FALSE), IntV(5), IntV(-12), NumV(NZero), NumV(NaN), NumV(PInf), NumV(OneHalf),
           NumV(DecToNum(FALSE, <<1>>, 21)), StrV(RStr), StrObj(RStr), StrV(<<>>), StrObj(<<>>), O1, O2, O3, O4, O5}
-StylesOf(th) == IF th.t \in {"str", "strobj"} THEN {"member", "call"}
+StylesOf(th) == IF th.t \in {"str", "strobj", "strobjx"} THEN {"member", "call"}
                 ELSE IF th.t = "undef" THEN {"call", "comma"} ELSE {"call"}
 MethodSeq == SetToSeq(S!Methods)
 ArgSetsOf(m) ==
@@ -189,7 +194,9 @@ Cases(b) ==
 
 -----------------------------------------------------------------------------
 (* JavaScript text of a case *)
-Lit(v) == IF v.t = "strobj" THEN <<"new String(", [lit |-> StrV(v.s)], ")">> ELSE <<[lit |-> v]>>
+Lit(v) == IF v.t = "strobj" THEN <<"new String(", [lit |-> StrV(v.s)], ")">>
+          ELSE IF v.t = "strobjx" THEN <<"SOX(" \o ToString(v.id) \o ",", [lit |-> StrV(v.s)], ",", [lit |-> v.ts], ")">>
+          ELSE <<[lit |-> v]>>
 RECURSIVE Commas(_)
 Commas(ps) == IF ps = <<>> THEN <<>> ELSE IF Len(ps) = 1 THEN ps[1] ELSE ps[1] \o <<",">> \o Commas(Tail(ps))
 ArgParts(args) == Commas([i \in 1..Len(args) |-> Lit(args[i])])
